@@ -348,7 +348,7 @@ fn run_input(inp: &Input, bases: &[(String, Vec<u8>)]) -> (String, Vec<(String, 
             offs.retain(|o| *o < vs);
             let mut labels = vec![];
             let budget_hit = |sim: &std::rc::Rc<std::cell::RefCell<Sim>>| sim.borrow().reqs.len() > 200_000;
-            for (name, f) in [("read", 0), ("map", 1), ("check", 2), ("write", 3), ("flush", 4)] {
+            for (name, f) in [("read", 0), ("map", 1), ("check", 2), ("write", 3), ("flush", 4), ("discard", 5), ("flush-after-discard", 4)] {
                 let r = catch_unwind(AssertUnwindSafe(|| {
                     let mut ok = 0;
                     let mut err = 0;
@@ -390,6 +390,15 @@ fn run_input(inp: &Input, bases: &[(String, Vec<u8>)]) -> (String, Vec<(String, 
                                 }
                             }
                         }
+                        5 => {
+                            // releases whatever the (possibly forged) entries point to
+                            for o in offs.iter() {
+                                match crate::world::block_on(dev.discard(*o, cs)) {
+                                    Ok(_) => ok += 1,
+                                    Err(_) => err += 1,
+                                }
+                            }
+                        }
                         _ => match crate::world::block_on(dev.flush_meta()) {
                             Ok(_) => ok += 1,
                             Err(_) => err += 1,
@@ -410,6 +419,10 @@ fn run_input(inp: &Input, bases: &[(String, Vec<u8>)]) -> (String, Vec<(String, 
                     v.push((format!("{}-unbounded-requests", name), format!("{}: {} issued more than 200000 backend requests", what, name)));
                     break;
                 }
+            }
+            // whatever the operations returned, they must not have destroyed the image's identity
+            if sim.borrow().files[0].get(0..4) != Some(&[0x51, 0x46, 0x49, 0xfb][..]) {
+                v.push(("header-destroyed".into(), format!("{}: after read/write/discard/flush the file does not start with the qcow2 magic any more", what)));
             }
             outcome = format!("open:Ok {}", labels.join(" "));
             std::mem::forget(dev); // a device in a broken state may panic in drop paths; not under test
